@@ -366,6 +366,7 @@ func c14Explore(r *ev.Run, dbs *schemas.DB, ref *rm.Schema, alpha []c14Note, sc 
 		retry = 0
 		execs++
 		r.Add("executions", 1)
+		workers.Heartbeat()
 		r.Add("transitions", int64(len(res.Points)))
 		var trace []string
 		for _, p := range res.Points {
